@@ -13,7 +13,7 @@ BIG = [4095, 4096, 4097]
 
 def pat(seed, a): return (a * 37 + (a >> 8) * 11 + seed) & 0xff
 
-ERRS = {'nospace': 'ENoSpace', 'eof': 'EEof', 'split': 'ESplit', 'file': 'EFile', 'overflow': 'EOverflow',
+ERRS = {'noflush': 'EBadIndex', 'nospace': 'ENoSpace', 'eof': 'EEof', 'split': 'ESplit', 'file': 'EFile', 'overflow': 'EOverflow',
         'findregion': 'EFindRegion', 'guestmem': 'EGuestMem', 'writezero': 'EEof',
         'oob': 'EGuestMem', 'partial': 'EEof', 'io': 'EEof', 'misaligned': 'EBadIndex'}
 
@@ -71,7 +71,7 @@ def gen_chain(rng):
         else: descs[i] = (b + z - 3, 4 + rng.choice([0, 10]), descs[i][2]); bad = 'guestmem'
     return regions, descs, bad
 
-ASYNC = {'T': 't', 'a': 'w', 'e': 'w', 'b': 'v', 'd': 'v', 'g': 'f', 'h': 'c'}
+ASYNC = {'T': 't', 'a': 'w', 'e': 'w', 'b': 'v', 'd': 'v', 'g': 'f', 'h': 'c', 'O': 'w'}     # 'O' = write_obj: write_all(val.as_slice())
 def sync_of(op):
     """async_read_to_at -> read_to_at, async_write / async_write_all -> write, async_write2/3 -> write_vectored,
     async_write_from_at -> write_from_at, async_commit -> commit"""
@@ -96,7 +96,11 @@ class VSpec:
     def apply(self, op):
         """-> expected observation dict {'res': tuple or list of alternatives, 'a','c','a2','c2'}"""
         op = sync_of(op)            # the async variants have the contract of their synchronous counterparts
+        if op[0] in 'XA' and op[3] == 'i': op = op[:3] + ('l', 5000 if op[0] == 'X' else op[4]) + op[5:]   # one EINTR is retried by the loop: invisible
         k = op[0]; a2 = c2 = 0
+        if k == 'F':                 # VirtioFsWriter::flush: nothing to flush
+            h = self.wr[op[1]]
+            return {'res': ('ok', 0, b''), 'a': len(h[0]), 'c': h[1], 'a2': 0, 'c2': 0}
         if k in 'rxotsX':
             h = self.rd[op[1]]; addrs = h[0]
             if k == 'r':
@@ -190,15 +194,17 @@ def gen_vops(rng, spec, nops, reader_only=False, writer_bias=False, use_async=Tr
                 kind = rng.choice('ffaalle' + ('b' if rng.random() < 0.3 else 'l'))
                 op = ('t', i, pick_n(rng, av), kind, rng.choice([0, 1, 2, 5, max(av - 1, 0), av, 5000]) if kind == 'l' else 0)
             elif k == 'X':
-                kind = rng.choice('fflle' + ('b' if rng.random() < 0.3 else 'l'))
+                kind = rng.choice('ffllei' + ('b' if rng.random() < 0.3 else 'l'))
                 cnt = pick_n(rng, av)
                 lims = [0, 1, 1, 2, 5, 7, max(av - 1, 1), 5000] if min(cnt, av) <= 300 else [0, av // 3 + 1, av // 2 + 1, max(av - 1, 1), 5000]   # many tiny pieces of a big buffer only cost time
-                op = ('X', i, cnt, kind, rng.choice(lims) if kind == 'l' else 0)
+                op = ('X', i, cnt, kind, rng.choice(lims) if kind == 'l' else (5000 if kind == 'i' else 0))
             else: op = ('s', i, pick_n(rng, av))
         else:
             i = rng.randrange(len(spec.wr)); av = len(spec.wr[i][0])
-            k = rng.choice(('wwwvvfffpcA' if not writer_bias else 'wwvfffppA') + ('abdegggh' if use_async else ''))
-            if k in 'ae': op = (k, i, rdata(rng, min(pick_n(rng, av), 6000)))
+            k = rng.choice(('wwwvvfffpcAOF' if not writer_bias else 'wwvfffppAO') + ('abdegggh' if use_async else ''))
+            if k == 'O': op = ('O', i, rdata(rng, rng.choice([1, 2, 4, 8, 16])))
+            elif k == 'F': op = ('F', i)
+            elif k in 'ae': op = (k, i, rdata(rng, min(pick_n(rng, av), 6000)))
             elif k in 'bd':
                 tot = min(pick_n(rng, av), 6000)
                 op = (k, i, [rdata(rng, rng.choice([0, 0, 1, tot // 2, tot, rng.randrange(tot + 1)])) for _ in range(2 if k == 'b' else 3)])
@@ -221,7 +227,7 @@ def gen_vops(rng, spec, nops, reader_only=False, writer_bias=False, use_async=Tr
                 dl = rng.choice([count, count, count + 3, max(count - 1, 0), count // 2, 0])
                 op = ('f', i, count, kind, rdata(rng, dl) if kind not in 'eb' else b'')
             elif k == 'A':
-                kind = rng.choice('fflle' + ('b' if rng.random() < 0.3 else 'l'))
+                kind = rng.choice('ffllei' + ('b' if rng.random() < 0.3 else 'l'))
                 count = min(pick_n(rng, av), 6000)
                 dl = rng.choice([count, count, count + 3, max(count - 1, 0), count // 2, 0])
                 op = ('A', i, count, kind, rdata(rng, dl) if kind not in 'eb' else b'')
@@ -234,7 +240,8 @@ def op_text(op):
     k = op[0]
     if k in 'rxosp': return '%s,%d,%d' % (k, op[1], op[2])
     if k in 'tXT': return '%s,%d,%d,%s,%d' % (k, op[1], op[2], op[3], op[4])
-    if k in 'wae': return '%s,%d,%s' % (k, op[1], op[2].hex())
+    if k in 'waeO': return '%s,%d,%s' % (k, op[1], op[2].hex())
+    if k == 'F': return 'F,%d' % op[1]
     if k in 'vbd': return '%s,%d,%s' % (k, op[1], '/'.join(d.hex() or '-' for d in op[2]))
     if k in 'fAg': return '%s,%d,%d,%s,%s' % (k, op[1], op[2], op[3], op[4].hex())
     if k in 'ch': return '%s,%d' % (k, op[1]) if len(op) == 2 else '%s,%d,%d' % (k, op[1], op[2])
@@ -255,6 +262,8 @@ def aop_coq(op):
     if k == 'd': return '(AWrite3 %s %s %s %s)' % (i, dcoq(op[2][0]), dcoq(op[2][1]), dcoq(op[2][2]))
     if k == 'g': return '(AWriteFromAt %s %d %s)' % (i, op[2], 'None' if op[3] in 'eb' else '(Some %s)' % dcoq(op[4]))
     if k == 'h': return '(ACommit %s)' % i
+    if k == 'O': return '(ASync (WWrite %s %s))' % (i, dcoq(op[2]))      # write_obj = write_all over an all-or-error write
+    if k == 'F': return '(ASync (WCommit %s))' % i                        # flush: Ok(()), no effect (same as commit)
     return '(ASync %s)' % op_coq(op)
 
 def afop_coq(op):
@@ -266,6 +275,13 @@ def afop_coq(op):
     if k == 'g': return '(FAWriteFromAt %s %d %s)' % (i, op[2], 'None' if op[3] in 'eb' else '(Some %s)' % dcoq(op[4]))
     if k == 'h': return '(FACommit %s %s)' % (i, 'None' if op[2] < 0 else '(Some %d%%nat)' % op[2])
     return '(FSync %s)' % fop_coq(op)
+
+def xfop_coq(op):
+    k = op[0]; i = '%d%%nat' % op[1]
+    if k == 'A': return '(XWriteAllFrom %s %d %s)' % (i, op[2], 'None' if op[3] in 'eb' else '(Some %s)' % dcoq(op[4]))
+    if k == 'F': return '(XFlush %s)' % i
+    if k == 'O': return '(XA (FSync (FWrite %s %s)))' % (i, dcoq(op[2]))
+    return '(XA %s)' % afop_coq(op)
 
 def op_coq(op):
     k = op[0]; i = '%d%%nat' % op[1]
@@ -309,8 +325,8 @@ def win_coq(ws):
 
 def case_text_v(c):
     regs = [QREGION] + list(c['regions'])
-    return 'seed=%d regions=%s queue=0 descs=%s dirty0=%s ops=%s' % (
-        c['seed'], ','.join('%d:%d' % r for r in regs), ','.join('%d:%d:%s' % d for d in c['descs']),
+    return 'seed=%d regions=%s queue=0 via=%s descs=%s dirty0=%s ops=%s' % (
+        c['seed'], ','.join('%d:%d' % r for r in regs), c.get('via', 'direct'), ','.join('%d:%d:%s' % d for d in c['descs']),
         ','.join(str(p) for p in sorted(c.get('dirty0', ()))), ';'.join(op_text(o) for o in c['ops']))
 
 def windows(seed, ranges, diffs, limit):
@@ -361,7 +377,7 @@ def gen_vcases(rng, n, writer_bias=False, maxops=25, dirty_init=False):
         allp = [p for b, z in regions for p in range(b // PS, (b + z) // PS)]
         mode = rng.choice(['none', 'none', 'none', 'random', 'all', 'alt']) if dirty_init else 'none'
         d0 = {'none': [], 'all': allp, 'alt': allp[rng.randrange(2)::2], 'random': [p for p in allp if rng.random() < 0.4]}[mode]
-        c = {'seed': seed, 'regions': regions, 'descs': descs, 'bad': bad, 'ops': [], 'dirty0': d0}
+        c = {'seed': seed, 'regions': regions, 'descs': descs, 'bad': bad, 'ops': [], 'dirty0': d0, 'via': rng.choice(['direct', 'enum'])}
         if not bad:
             spec = VSpec(seed, descs, d0)
             c['ops'] = gen_vops(rng, spec, rng.randrange(0, maxops + 1), writer_bias=writer_bias)
@@ -409,7 +425,7 @@ def eval_vcase(c, out):
     for si, (op, got) in enumerate(zip(c['ops'], out['obs'][1:]), 1):
         e = spec.apply(op)
         if not res_matches(e['res'], got[0]):
-            kind = {'r': 'read', 'x': 'read_exact', 'o': 'read_obj', 't': 'read_to', 'X': 'read_exact_to', 'A': 'write_all_from', 'T': 'async_read_to_at', 'a': 'async_write', 'b': 'async_write2', 'd': 'async_write3', 'e': 'async_write_all', 'g': 'async_write_from_at', 'h': 'async_commit', 's': 'reader split_at', 'w': 'write',
+            kind = {'r': 'read', 'x': 'read_exact', 'o': 'read_obj', 't': 'read_to', 'X': 'read_exact_to', 'A': 'write_all_from', 'T': 'async_read_to_at', 'a': 'async_write', 'b': 'async_write2', 'd': 'async_write3', 'e': 'async_write_all', 'g': 'async_write_from_at', 'h': 'async_commit', 'O': 'write_obj', 'F': 'flush', 's': 'reader split_at', 'w': 'write',
                     'v': 'write_vectored', 'f': 'write_from', 'p': 'writer split_at', 'c': 'commit'}[op[0]]
             p04.append({'what': 'virtio %s returned %s, the byte-stream specification gives %s' % (kind, got[0][:2], (e['res'] if isinstance(e['res'], list) else e['res'][:2])),
                         'step': si, 'op': op_json(op), 'got': got[0], 'sig': {'transport': 'virtio', 'op': kind}})
@@ -460,6 +476,27 @@ class FSpec:
     def apply(self, op):
         w = self.ws[op[1]]; a2 = c2 = 0; pk = []
         room = w['hi'] - w['lo'] - len(w['content'])
+        if op[0] == 'F':                         # FuseDevWriter::flush always refuses
+            return {'res': ('err', 'noflush'), 'a': room, 'c': len(w['content']), 'a2': 0, 'c2': 0, 'pk': []}
+        if op[0] == 'A':                         # write_all_from: all count bytes or an error; contract only for buffered writers / full sources
+            count, kind, data = op[2], op[3], op[4]
+            if not w['buf'] and w['content']:
+                self.off = True
+                return {'res': 'panic', 'a': room, 'c': len(w['content']), 'a2': 0, 'c2': 0, 'pk': []}
+            if count > room: res = ('err', 'nospace'); n = 0
+            elif count == 0: res = ('ok', 0, b''); n = 0
+            elif kind in 'eb': res = ('err', 'file'); n = 0
+            else:
+                n = min(count, len(data)); d = data[:n]
+                self.place(w, d)
+                pk = [d] if (not w['buf']) else []
+                w['content'] += d
+                if n == count: res = ('ok', 0, b'')
+                elif w['buf']: res = ('err', 'writezero')
+                else:
+                    res = 'panic' if n > 0 else ('err', 'writezero')       # unbuffered + short source: the 2nd iteration hits the assert!
+                    self.off = True
+            return {'res': res, 'a': w['hi'] - w['lo'] - len(w['content']), 'c': len(w['content']), 'a2': 0, 'c2': 0, 'pk': pk}
         if op[0] == 'e' and not op[2]:           # async_write_all(&[]): the loop body never runs
             return {'res': ('ok', 0, b''), 'a': room, 'c': len(w['content']), 'a2': 0, 'c2': 0, 'pk': []}
         if op[0] in 'gf' and w['buf'] and w['content'] and op[3] not in 'eb' and min(op[2], len(op[4])) > 0 and op[2] <= room:
@@ -511,9 +548,14 @@ def gen_fcase(rng, protocol_only=False):
     for _ in range(rng.randrange(0, 14)):
         i = rng.randrange(len(spec.ws)); w = spec.ws[i]
         room = w['hi'] - w['lo'] - len(w['content'])
-        k = rng.choice('wwvffppcc' + 'abdegggghh')
+        k = rng.choice('wwvffppcc' + 'abdegggghh' + 'AAOF')
         if protocol_only and not w['buf'] and w['content'] and k not in 'ch': k = rng.choice('ch')
-        if k in 'wae': op = (k, i, rdata(rng, min(pick_n(rng, room), 5000)))
+        if k == 'O': op = ('O', i, rdata(rng, rng.choice([1, 2, 4, 8, 16])))
+        elif k == 'F': op = ('F', i)
+        elif k == 'A':
+            kind = rng.choice('fflliie'); count = min(pick_n(rng, room), 5000)
+            op = ('A', i, count, kind, rdata(rng, rng.choice([count, count, count + 3, max(count - 1, 0), count // 2, 0])) if kind != 'e' else b'')
+        elif k in 'wae': op = (k, i, rdata(rng, min(pick_n(rng, room), 5000)))
         elif k in 'bd':
             tot = min(pick_n(rng, room), 5000)
             op = (k, i, [rdata(rng, rng.choice([0, 0, 1, tot // 2, tot])) for _ in range(2 if k == 'b' else 3)])
@@ -553,7 +595,7 @@ def fcase_coq(c, out):
         return '(check_afr %d %d %d [%s] [%s] [%s])' % (c['seed'], base, c['cap'], '; '.join(aop_coq(o) for o in c['ops']),
                                                        '; '.join(obs_coq(o) for o in out['obs']), wtxt)
     pk = [p for o in out['obs'] for p in o[5]]
-    return '(check_af async_wfrom_at_len %d %d %d [%s] [%s] [%s] [%s])' % (c['seed'], base, c['cap'], '; '.join(afop_coq(o) for o in c['ops']),
+    return '(check_af async_wfrom_at_len %d %d %d [%s] [%s] [%s] [%s])' % (c['seed'], base, c['cap'], '; '.join(xfop_coq(o) for o in c['ops']),
                                                         '; '.join(obs_coq(o) for o in out['obs']),
                                                         '; '.join('(%d, %d)' % (len(bytes.fromhex(p)), hashN(bytes.fromhex(p))) for p in pk), wtxt)
 
@@ -576,7 +618,7 @@ def eval_fcase(c, out):
         e = spec.apply(op)
         if spec.off: break
         kind = {'w': 'write', 'v': 'write_vectored', 'f': 'write_from', 'p': 'split_at', 'c': 'commit', 'a': 'async_write', 'b': 'async_write2', 'd': 'async_write3',
-                'e': 'async_write_all', 'g': 'async_write_from_at', 'h': 'async_commit'}[op[0]]
+                'e': 'async_write_all', 'g': 'async_write_from_at', 'h': 'async_commit', 'O': 'write_obj', 'F': 'flush', 'A': 'write_all_from'}[op[0]]
         if not res_matches(e['res'], got[0]):
             probs.append({'what': 'fusedev %s returned %s, contract gives %s' % (kind, got[0][:2], e['res'] if isinstance(e['res'], str) else e['res'][:2]),
                           'step': si, 'op': op_json(op), 'sig': {'transport': 'fusedev', 'op': kind}}); break
@@ -889,3 +931,148 @@ def gen_fcase_over(rng):
     ops = [('p', 0, h), (rng.choice('wa'), 1, pre), (k, 1, n + rng.choice([0, 2]), rng.choice('fl') if k == 'g' else rng.choice('fal'), rdata(rng, n)),
            (rng.choice('wa'), 0, rdata(rng, h)), (rng.choice('ch'), 0, 1)]
     return {'seed': seed, 'cap': cap, 'mode': 'writer', 'ops': ops}
+
+# ------------------------------------------------------------------ deterministic enumeration blocks (coverage audit)
+def _mk_op(rng, k, sub, i, n):
+    """operation of kind k (sub = file kind) on handle i with size parameter n"""
+    if k in 'rx': return (k, i, n)
+    if k == 'o': return ('o', i, n)
+    if k == 't': return ('t', i, n, sub, 3 if sub == 'l' else 0)
+    if k == 'X': return ('X', i, n, sub, {'l': 3, 'i': 5000}.get(sub, 0))
+    if k == 'T': return ('T', i, n, sub, 3 if sub == 'l' else 0)
+    if k in 'wae': return (k, i, rdata(rng, n))
+    if k == 'O': return ('O', i, rdata(rng, n))
+    if k == 'v': return ('v', i, [rdata(rng, n // 2), b'', rdata(rng, n - n // 2)])
+    if k == 'b': return ('b', i, [rdata(rng, n // 2), rdata(rng, n - n // 2)])
+    if k == 'd': return ('d', i, [rdata(rng, n // 3), rdata(rng, 0), rdata(rng, n - n // 3)])
+    if k in 'fgA': return (k, i, n, sub, rdata(rng, n) if sub != 'e' else b'')
+    if k in 'cFh': return (k, i)
+    raise ValueError(k)
+
+W_KINDS = [('w', ''), ('v', ''), ('f', 'f'), ('f', 'a'), ('f', 'l'), ('f', 'e'), ('A', 'f'), ('A', 'l'), ('A', 'i'), ('a', ''), ('b', ''), ('d', ''),
+           ('e', ''), ('g', 'f'), ('g', 'l'), ('g', 'e'), ('O', ''), ('c', ''), ('h', ''), ('F', '')]
+R_KINDS = [('r', ''), ('x', ''), ('o', ''), ('t', 'f'), ('t', 'a'), ('t', 'l'), ('t', 'e'), ('X', 'f'), ('X', 'l'), ('X', 'i'), ('X', 'e'),
+           ('T', 'f'), ('T', 'l'), ('T', 'e'), ('s', '')]
+
+def gen_enum_vcases(rng, writer_only=False):
+    """every operation kind x {fresh handle, first half, second half of a split} x {0, 1, room-1, room, room+1} x
+    {direct, through the Writer enum} x initial dirty log {none, all, alternating}, on a fixed chain whose readable and
+    writable parts both cross a page border, contain an empty descriptor and lie in two regions"""
+    regions = LAYOUTS[0]; (ab, az), (bb, bz) = regions
+    descs = [(ab + 4090, 10, 'r'), (ab + 5000, 0, 'r'), (bb + 0, 6, 'r'), (ab + 8190, 4, 'w'), (bb + 100, 0, 'w'), (bb + 4090, 12, 'w')]
+    allp = [p for b, z in regions for p in range(b // PS, (b + z) // PS)]
+    cases = []; n = 0
+    for side, kinds in (('w', W_KINDS), ('r', R_KINDS)):
+        if writer_only and side == 'r': continue
+        for k, sub in kinds:
+            for pos in ('fresh', 'first', 'second'):
+                room = {'fresh': 16, 'first': 6, 'second': 10}[pos]
+                sizes = [0, 1, room - 1, room, room + 1]
+                if k in 'Oo': sizes = [1, 2, 4, 8, 16]
+                if k in 'cFh': sizes = [0]
+                if k == 's': sizes = [0, 1, room, room + 1]
+                for sz in sizes:
+                    pre = [] if pos == 'fresh' else [('p' if side == 'w' else 's', 0, 6)]
+                    i = 1 if pos == 'second' else 0
+                    op = ('s', i, sz) if k == 's' else _mk_op(rng, k, sub, i, sz)
+                    d0 = [[], allp, allp[::2]][n % 3]
+                    cases.append({'seed': n % 251, 'regions': regions, 'descs': descs, 'bad': None, 'ops': pre + [op], 'dirty0': d0,
+                                  'via': ['direct', 'enum'][n % 2], 'pattern': 'enum-' + k + sub, 'dirty_mode': ['none', 'all', 'alt'][n % 3]})
+                    n += 1
+    return cases
+
+def gen_enum_fcases(rng):
+    """FuseDevWriter: every operation kind x {unbuffered, first half, second half, second half already holding 3 bytes} x
+    {0, 1, room-1, room, room+1}, followed by a commit of both halves"""
+    cases = []; n = 0
+    kinds = [k for k in W_KINDS if k != ('h', '')] + [('h', '')]
+    for k, sub in kinds:
+        for pos in ('plain', 'first', 'second', 'second+3'):
+            room = {'plain': 16, 'first': 6, 'second': 10, 'second+3': 7}[pos]
+            sizes = [0, 1, room - 1, room, room + 1]
+            if k == 'O': sizes = [1, 2, 4, 8, 16]
+            if k in 'cFh': sizes = [0]
+            for sz in sizes:
+                pre = [] if pos == 'plain' else [('p', 0, 6)]
+                if pos == 'second+3': pre.append((['w', 'a'][n % 2], 1, rdata(rng, 3)))
+                i = 0 if pos in ('plain', 'first') else 1
+                op = (k, i, 1 - i if pos != 'plain' else -1) if k in 'ch' else _mk_op(rng, k, sub, i, sz)
+                post = [] if pos == 'plain' else [(['c', 'h'][n % 2], 0, 1)]
+                cases.append({'seed': n % 251, 'cap': 16, 'mode': 'writer', 'ops': pre + [op] + post})
+                n += 1
+    return cases
+
+# ------------------------------------------------------------------ FileReadWriteVolatile for File / &mut File (POSIX reference)
+FT_METHODS = ['read_volatile', 'read_vectored_volatile', 'read_exact_volatile', 'write_volatile', 'write_vectored_volatile', 'write_all_volatile',
+              'read_at_volatile', 'read_vectored_at_volatile', 'read_exact_at_volatile', 'write_at_volatile', 'write_vectored_at_volatile', 'write_all_at_volatile']
+
+def gen_ftcases(rng):
+    """each of the 12 trait methods x {File, &mut File} x slice shapes (none, empty, one, three with an empty one) x
+    file shorter / equal / longer than the slices x position / offset inside, at and behind the end of the file"""
+    cases = []; n = 0
+    for m in FT_METHODS:
+        vect = 'vectored' in m
+        for shape in ([[], [0], [5], [3, 0, 4], [4096, 1]] if vect else [[0], [1], [5], [4097]]):
+            tot = sum(shape) if vect else (shape[0] if shape else 0)
+            for clen in sorted(set([0, max(tot - 1, 0), tot, tot + 3])):
+                for where in (0, 2, clen, clen + 2):
+                    cases.append({'seed': n % 251, 'method': m, 'content': rdata(rng, clen), 'pos': where, 'off': where, 'slices': shape, 'wrap': n % 2})
+                    n += 1
+    return cases
+
+def case_text_ft(c):
+    return 'seed=%d method=%s content=%s pos=%d off=%d slices=%s wrap=%d' % (c['seed'], c['method'], bytes(c['content']).hex() or '-', c['pos'], c['off'],
+                                                                            ','.join(str(x) for x in c['slices']), c['wrap'])
+
+def ftspec(c):
+    """-> (res, slices after, file after, position after)"""
+    m = c['method']; content = bytearray(c['content']); at = '_at_' in m
+    pos = c['off'] if at else c['pos']
+    lens = list(c['slices']); o = 8; sl = []
+    for l in lens:
+        sl.append(bytearray(pat(c['seed'], BBASE + o + i) for i in range(l))); o += l + 8
+    use = sl if 'vectored' in m else (sl[:1] or [bytearray()])
+    if m.startswith('read'):
+        want = sum(len(x) for x in use); have = max(len(content) - pos, 0); n = min(want, have)
+        data = content[pos:pos + n]; k = 0
+        for x in use:
+            t = min(len(x), n - k); x[:t] = data[k:k + t]; k += t
+        res = ('ok', n)
+        if 'exact' in m: res = ('ok', 0) if n == want else ('err', 'eof')
+        newpos = c['pos'] if at else c['pos'] + n
+    else:
+        data = b''.join(bytes(x) for x in use); n = len(data)
+        if n:
+            if pos > len(content): content.extend(b'\0' * (pos - len(content)))
+            content[pos:pos + n] = data
+        res = ('ok', 0) if 'all' in m else ('ok', n)
+        newpos = c['pos'] if at else c['pos'] + n
+    return res, [bytes(x) for x in sl], bytes(content), newpos
+
+def eval_ftcase(c, out):
+    if out.get('harness_panic'): return [{'what': 'FileReadWriteVolatile::%s panicked' % c['method'], 'sig': {'method': c['method']}}]
+    res, sl, fc, pos = ftspec(c)
+    got = out['res']
+    ok = (got[0] == res[0] and got[1] == res[1]) and [bytes.fromhex(x) for x in out['slices']] == sl and bytes.fromhex(out['file']) == fc and out['pos'] == pos and out['canary']
+    if ok: return []
+    return [{'what': 'FileReadWriteVolatile::%s for %s deviates from the POSIX reference: got %s pos %s, expected %s pos %s' % (
+                 c['method'], '&mut File' if c['wrap'] else 'File', got, out['pos'], res, pos), 'input': case_text_ft(c), 'sig': {'method': c['method']}}]
+
+# ------------------------------------------------------------------ FileVolatileBuf bookkeeping
+def gen_fvbufcases(rng):
+    return [{'seed': n % 251, 'size': cap, 'addr': init, 'count': ns} for n, (cap, init, ns) in enumerate(
+        (cap, init, ns) for cap in (0, 1, 10, 4096) for init in sorted(set([0, cap // 2, cap, cap + 1])) for ns in sorted(set([0, cap, cap + 1])))]
+
+def eval_fvbufcase(c, out):
+    cap, init, ns = c['size'], c['addr'], c['count']
+    if init > cap: exp = ['panic']                    # new_with_data / from_raw_ptr assert size <= cap
+    else:
+        head = bytes(pat(c['seed'], BBASE + i) for i in range(init))
+        exp = ['ok', [0, cap, 1, init, cap, init, cap - init, ns if ns <= cap else init, cap, int(cap == 0), cap, cap, 0, cap, init], head.hex()]
+    if out.get('res') == exp: return []
+    return [{'what': 'FileVolatileBuf / borrow_as_buf bookkeeping differs: got %s, expected %s' % (out.get('res'), exp), 'input': 'seed=%d size=%d addr=%d count=%d' % (c['seed'], cap, init, ns), 'sig': {'method': 'FileVolatileBuf'}}]
+
+MISC_EXPECTED = {"noop_write": "err22", "noop_write_vectored": "err22", "noop_flush": "ok0", "noop_write_from_at": "err22", "noop_split": "err", "noop_avail": 0,
+                 "noop_written": 0, "noop_commit": "ok0", "noop_async_write": "err22", "noop_async_write2": "err22", "noop_async_write3": "err22",
+                 "noop_async_write_all": "err22", "noop_async_commit": "err22", "noop_async_write_from_at": "err22",
+                 "default_reader": [0, 0, "ok0", "eof", "ok", "err"], "reader_clone": ["0304", "03040506", 3, 5, 1, 7], "fusedev_flush": "err"}
